@@ -428,7 +428,10 @@ impl<T: GseDecapMemory, C: CrcCalculator, MHEM: MandatoryHeaderExtensionManager>
         // check buffer size
         if pdu_buffer_len + label_len + header_ext_len + PROTOCOL_LEN < gse_len {
             self.last_label = None;
-            self.memory.provision_storage(pdu_buffer).unwrap();
+            // if the memory refuses the storage, it is handed to the caller inside the error
+            if let Err(err) = self.memory.provision_storage(pdu_buffer) {
+                return Err((DecapError::ErrorMemory(err), pkt_len));
+            }
             return Err((DecapError::ErrorSizePduBuffer, pkt_len));
         }
         let calculed_pdu_len = gse_len - label_len - header_ext_len - PROTOCOL_LEN;
@@ -686,7 +689,10 @@ impl<T: GseDecapMemory, C: CrcCalculator, MHEM: MandatoryHeaderExtensionManager>
         let pdu_buffer_len = pdu_buffer.len();
         if pdu_buffer_len + label_len + PROTOCOL_LEN + FRAG_ID_LEN + TOTAL_LENGTH_LEN < gse_len {
             self.last_label = None;
-            self.memory.provision_storage(pdu_buffer).unwrap();
+            // if the memory refuses the storage, it is handed to the caller inside the error
+            if let Err(err) = self.memory.provision_storage(pdu_buffer) {
+                return Err((DecapError::ErrorMemory(err), pkt_len));
+            }
             return Err((DecapError::ErrorSizePduBuffer, pkt_len));
         }
 
@@ -733,7 +739,10 @@ impl<T: GseDecapMemory, C: CrcCalculator, MHEM: MandatoryHeaderExtensionManager>
         let pdu_buffer_len = pdu_buffer.len();
 
         if pdu_buffer_len < calculed_pdu_len {
-            self.memory.provision_storage(pdu).unwrap();
+            // if the memory refuses the storage, it is handed to the caller inside the error
+            if let Err(err) = self.memory.provision_storage(pdu) {
+                return Err((DecapError::ErrorMemory(err), pkt_len));
+            }
             return Err((DecapError::ErrorSizePduBuffer, pkt_len));
         }
         pdu_buffer[..calculed_pdu_len].copy_from_slice(&buffer[offset..offset + calculed_pdu_len]);
@@ -783,7 +792,10 @@ impl<T: GseDecapMemory, C: CrcCalculator, MHEM: MandatoryHeaderExtensionManager>
         let pdu_buffer_len = pdu_buffer.len();
 
         if pdu_buffer_len < calculed_pdu_len {
-            self.memory.provision_storage(pdu).unwrap();
+            // if the memory refuses the storage, it is handed to the caller inside the error
+            if let Err(err) = self.memory.provision_storage(pdu) {
+                return Err((DecapError::ErrorMemory(err), pkt_len));
+            }
             return Err((DecapError::ErrorSizePduBuffer, pkt_len));
         }
 
@@ -812,7 +824,10 @@ impl<T: GseDecapMemory, C: CrcCalculator, MHEM: MandatoryHeaderExtensionManager>
 
         let total_len_received = (pdu_len + PROTOCOL_LEN + first_label_len) as u16;
         if decap_context.total_len != total_len_received {
-            self.memory.provision_storage(pdu).unwrap();
+            // if the memory refuses the storage, it is handed to the caller inside the error
+            if let Err(err) = self.memory.provision_storage(pdu) {
+                return Err((DecapError::ErrorMemory(err), pkt_len));
+            }
             return Err((DecapError::ErrorTotalLength, pkt_len));
         }
 
@@ -824,7 +839,10 @@ impl<T: GseDecapMemory, C: CrcCalculator, MHEM: MandatoryHeaderExtensionManager>
         );
 
         if calculted_crc != received_crc {
-            self.memory.provision_storage(pdu).unwrap();
+            // if the memory refuses the storage, it is handed to the caller inside the error
+            if let Err(err) = self.memory.provision_storage(pdu) {
+                return Err((DecapError::ErrorMemory(err), pkt_len));
+            }
             return Err((DecapError::ErrorCrc, pkt_len));
         }
 
